@@ -482,6 +482,8 @@ class Impl:
             return None
         ins = list(node.inputs.get_vars().values())
         if ident == "Constant":
+            if getattr(node.attrs, "value", None) is None:      # a Constant given through value_int / value_float / ...: outside the model's language
+                return None
             val = node.attrs.value.value
             if val.shape != ():
                 return None
